@@ -546,7 +546,10 @@ fn c05_descriptors_and_accessors(args: &Args, rep: &mut Report) {
         let mut m = gen_movie(&mut rng, 1, 3, 16);
         m.tracks[0].codec = Codec::Aac;
         let aot = if rng.bool() { 1 + rng.below(30) as u8 } else { 32 + rng.below(15) as u8 };
-        m.tracks[0].aac = (aot, rng.below(13) as u8, 1 + rng.below(7) as u8, rng.biased_u32());
+        // channel configuration over its whole 4-bit field: 1..=7 are layouts, 0 ("defined in the
+        // bitstream") and 8..=15 are not - for those the accessor has no layout to report
+        let chan = if rng.chance(1, 4) { *rng.pick(&[0u8, 0, 8, 11, 15]) } else { 1 + rng.below(7) as u8 };
+        m.tracks[0].aac = (aot, rng.below(13) as u8, chan, rng.biased_u32());
         let fl = gen_file_layout(&mut rng, &m);
         let qt = i % 3;
         let b = build_plain(&m, &fl, &|top| {
@@ -594,7 +597,8 @@ fn c05_descriptors_and_accessors(args: &Args, rep: &mut Report) {
                                 if s.freq_index != want.1 || fi != Some(want.1) {
                                     fails.push(("freq_index".into(), json!({"got": s.freq_index, "accessor": fi, "want": want.1, "form": qt})));
                                 }
-                                if s.chan_conf != want.2 || cc != Some(want.2) {
+                                let want_cc = if (1..=7).contains(&want.2) { Some(want.2) } else { None };
+                                if s.chan_conf != want.2 || cc != want_cc {
                                     fails.push(("chan_conf".into(), json!({"got": s.chan_conf, "accessor": cc, "want": want.2, "form": qt})));
                                 }
                                 let valid = matches!(want.0, 1..=9 | 12..=17 | 19..=30 | 32..=46);
